@@ -786,6 +786,12 @@ impl Duration {
         }
 
         let resolved_options = options.resolve()?;
+        // The minute precision given as the precision itself is the same request.
+        if resolved_options.smallest_unit == Unit::Minute {
+            return Err(TemporalError::range().with_message(
+                "string rounding options cannot have hour or minute smallest unit.",
+            ));
+        }
         if resolved_options.smallest_unit == Unit::Nanosecond
             && resolved_options.increment == RoundingIncrement::ONE
         {
